@@ -12,7 +12,7 @@ GNext == \/ \E b \in BOOLEAN : (SetBreezeAway(b) /\ H("away", B(b)))
          \/ \E v \in Rates : (SetRate(v) /\ H("rate", v))
          \/ \E v \in Angles : (SetLR(v) /\ H("lr", v))
          \/ \E v \in Angles : (SetUD(v) /\ H("ud", v))
-         \/ (Apply /\ H("apply", 0)) \/ (Refresh /\ H("refresh", 0)) \/ (GetCaps /\ H("caps", 0)) \/ (StartSelfClean /\ H("selfclean", 0)) \/ (CleanDone /\ H("cleandone", 0))
+         \/ (Apply /\ H("apply", 0)) \/ (Refresh /\ H("refresh", 0)) \/ (GetCaps /\ H("caps", 0)) \/ (StartSelfClean /\ H("selfclean", 0)) \/ (CleanDone /\ H("cleandone", 0)) \/ (GetCapsPage1 /\ H("caps1", 0))
 (* print histories of exactly MaxDepth calls (BFS) / every prefix end (simulation runs to depth) *)
 GEmit == IF Len(hist) >= MaxDepth THEN PrintT(<<"SCN", ToJson(hist)>>) /\ FALSE ELSE TRUE
 (* the shape every read-back needs: get_capabilities, two free calls, apply, refresh *)
